@@ -920,7 +920,7 @@ MUTANTS = [
     ("client: chunk list reset on every chunk (only the last chunk kept)", _m(SC, "_HTTPConnection.data_received", replace_stmt(lambda st: isinstance(st, ast.Expr) and "chunks.append" in _u(st), lambda st: [parse_stmt("self.chunks = [chunk]")])), "C08.assembly"),
     ("client: response body built from the last chunk only", _m(SC, "_HTTPConnection.finish", replace_expr(lambda n: isinstance(n, ast.Call) and _u(n) == "b''.join(self.chunks)", lambda n: parse_expr('self.chunks[-1] if self.chunks else b""'))), "C08.assembly"),
     ("client: buffered chunks silently dropped", _m(SC, "_HTTPConnection.data_received", replace_stmt(lambda st: isinstance(st, ast.Expr) and "chunks.append" in _u(st), lambda st: [ast.Pass()])), "C08.assembly"),
-    ("client: HTTPResponse built with code 200", _m(SC, "_HTTPConnection.finish", replace_expr(lambda n: isinstance(n, ast.Call) and q.call_attr(n) == "HTTPResponse" and len(n.args) >= 2, lambda n: ast.Call(func=n.func, args=[n.args[0], ast.Constant(value=200)] + n.args[2:], keywords=n.keywords))), "C08.assembly"),
+    ("client: HTTPResponse built with code 200", _m(SC, "_HTTPConnection.finish", replace_expr(lambda n: isinstance(n, ast.Call) and q.call_attr(n) == "HTTPResponse" and len(n.args) >= 2 and any(k.arg == "buffer" for k in n.keywords), lambda n: ast.Call(func=n.func, args=[n.args[0], ast.Constant(value=200)] + n.args[2:], keywords=n.keywords))), "C08.assembly"),
     ("client connection created in server mode", _m(SC, "_HTTPConnection._create_connection", replace_expr(lambda n: isinstance(n, ast.Call) and q.call_attr(n) == "HTTP1Connection", lambda n: ast.Call(func=n.func, args=[n.args[0], ast.Constant(value=False)] + n.args[2:], keywords=n.keywords))), "C08.client-wiring"),
     ("client ignores its max_body_size", _m(SC, "_HTTPConnection._create_connection", replace_expr(lambda n: isinstance(n, ast.keyword) and n.arg == "max_body_size", lambda n: ast.keyword(arg="max_body_size", value=ast.Constant(value=None)))), "C08.client-wiring"),
 ]
